@@ -87,6 +87,7 @@ NAME_FIELDS = ["short_day_names", "long_day_names", "short_month_names", "long_m
                "era:anno_persico", "era:bahai", "eranames:before_common"]  # fmt: skip
 
 _TRANSITIONS = {}  # zone id -> transition instants (ns since epoch) 1800..2100, read through the public API in a fork
+_DOUBLE = []  # (zone id, T1, T2): two transitions inside one 32-day cache period
 _SWEEPS = []  # systematic single-pre-emption cases (built in prepare)
 _POOL = None  # {"cal": {...}, ...} structured pool of ops
 _TABLE = None  # key(op) -> cold answer
@@ -322,6 +323,39 @@ def do_op(op, env):
         if op[1] == "aliases":
             return list(src.aliases.get(op[2], [])), None
         return src.canonical_id_map.get(op[2]), None
+    if k == "cobj":
+        # ["cobj", slot, culture name, calendar kind or None, query]: a culture object the calling thread owns and keeps
+        # customising over time; the query must answer as a freshly built culture in the same configuration would
+        import importlib
+
+        from pyoda_time._compatibility._culture_info import CultureInfo
+
+        store = env.cobj if env is not None else {}
+        keyc = (_thread_ident(), op[1])
+        ent = store.get(keyc)
+        if ent is None or ent["name"] != op[2]:
+            ent = store[keyc] = {"name": op[2], "obj": CultureInfo(op[2]), "cal": None}
+        if ent["cal"] != op[3] and op[3] is not None:
+            modname, clsname = _CAL_KINDS[op[3]]
+            ent["obj"].date_time_format.calendar = getattr(importlib.import_module("pyoda_time._compatibility." + modname), clsname)()
+            ent["cal"] = op[3]
+        elif ent["cal"] is not None and op[3] is None:
+            ent = store[keyc] = {"name": op[2], "obj": CultureInfo(op[2]), "cal": None}  # back to stock: a new object
+        ci = ent["obj"]
+        q = op[4]
+        if q[0] == "fmt":
+            return _pattern_cls(q[1]).create(q[2], ci).format(_value(q[1], q[3])), None
+        from pyoda_time.calendars import Era
+        from pyoda_time.globalization._pyoda_format_info import _PyodaFormatInfo
+
+        fi = _PyodaFormatInfo.get_instance(ci)
+        w = q[1]
+        if w.startswith("era:"):
+            return fi.get_era_primary_name(getattr(Era, w[4:])), None
+        if w.startswith("eranames:"):
+            return list(fi.get_era_names(getattr(Era, w[9:]))), None
+        v = getattr(fi, w)
+        return list(v) if isinstance(v, (list, tuple)) else v, None
     if k in ("fmtcust", "namescust"):
         # a caller-customised (mutable) culture: same name as the stock one, different calendar
         import pyoda_time._compatibility as compat  # noqa: F401
@@ -382,6 +416,17 @@ def _do_text(op, env):
     if r.success:
         return ["ok", _unvalue(op[1], r.value)], None
     return ["fail", type(r.exception).__name__], None
+
+
+_CAL_KINDS = {"gregorian": ("_gregorian_calendar", "GregorianCalendar"), "hijri": ("_hijri_calendar", "HijriCalendar"),
+              "persian": ("_persian_calendar", "PersianCalendar"), "umalqura": ("_um_al_qura_calendar", "UmAlQuraCalendar"),
+              "thai": ("_thai_buddhist_calendar", "ThaiBuddhistCalendar")}  # fmt: skip
+
+
+def _thread_ident():
+    import _thread
+
+    return _thread.get_ident()
 
 
 def _exc_site(e):
@@ -452,6 +497,20 @@ def build_pool(master_seed, scale=1.0):
                     iso_y = y if cal in ("ISO", "Gregorian", "Julian") else rng.randrange(-2000, 4000)
                     ops.append(["fromdays", cal, days_from_civil(iso_y, 1, 1) + rng.randrange(-3, 400)])
             groups.append(ops)
+        if cal.startswith("Hebrew"):
+            # dedicated groups around the ends of the 1024-year blocks: the Hebrew calculator also looks at the neighbouring
+            # years' slots, so years 1023, 1024 and 1025 apart meet in the table
+            for _ in range(max(2, int(3 * scale))):
+                m = rng.randrange(1, 9)
+                base = 1024 * m
+                ys = [y for y in (base - 1, base, base + 1, base + 1023, base + 1024, base + 1025, base - 1024, base - 1025, base - 1023) if lo < y < hi]
+                ops = []
+                for y in ys:
+                    mm = rng.randrange(1, 13)
+                    ops.append(["date", cal, y, mm, rng.randrange(1, 29)])
+                    ops.append(["ylen", cal, y])
+                    ops.append(["mlen", cal, y, rng.choice([2, 3, 8, 9])])
+                groups.append(ops)
         pool["cal"][cal] = groups
     periods_lo, periods_hi = -4371222 >> 5, 2932896 >> 5
     for zid in TZ_IDS:
@@ -511,6 +570,15 @@ def build_pool(master_seed, scale=1.0):
                     if -4371222 * NS_DAY <= ns <= 2932896 * NS_DAY:
                         ops.append([rng.choice(["zi", "zi", "zoff", "inzone"]), rng.choice(names), ns])
             pool["zone"][zid].append(ops)
+    dbl = list(_DOUBLE)
+    rng.shuffle(dbl)
+    for zid, t1, t2 in dbl[: int(10 * scale)]:
+        p_end = (((t2 // NS_DAY) >> 5) + 1) * 32 * NS_DAY
+        p_start = ((t1 // NS_DAY) >> 5) * 32 * NS_DAY
+        pts = [t2, t2 + 1, (t2 + p_end) // 2, p_end - 1, t1, t1 + 1, (t1 + t2) // 2, t2 - 1, t1 - 1, p_start, (p_start + t1) // 2]
+        ops = [[rng.choice(["zi", "zi", "zoff", "inzone"]), zid, ns] for ns in pts]
+        pool["zone"].setdefault(zid, []).append(ops)
+        pool["zone"][zid].append([list(o) for o in ops])  # twice: more likely to be drawn
     for zid in TZ_IDS:
         for nm in [zid] + TZ_ALIASES.get(zid, []):
             pool["prov"].append(["tz", nm])
@@ -586,6 +654,11 @@ def build_pool(master_seed, scale=1.0):
             for w in ("era:common", "eranames:common", "era:anno_hegirae", "era:anno_persico", "long_month_names", "short_day_names"):
                 pool["names"].append(["namescust", cn, kind, w])
                 pool["names"].append(["names", cn, "cached", w])
+        # the same caller-owned culture object re-customised over time (slot 0/1 of the calling thread)
+        for slot in (0, 1):
+            for kind in [None] + kinds:
+                pool["text"].setdefault(cn, []).append(["cobj", slot, cn, kind, ["fmt", "localdate", "d MMMM yyyy gg", rand_value("localdate")]])
+                pool["text"].setdefault(cn, []).append(["cobj", slot, cn, kind, ["names", rng.choice(["era:common", "eranames:common", "era:anno_hegirae", "era:anno_persico", "long_month_names"])]])
     for zid in TZ_IDS:
         pool["prov"].append(["winmap", "t2w", zid])
         pool["prov"].append(["winmap", "canon", rng.choice([zid] + TZ_ALIASES.get(zid, []))])
@@ -646,6 +719,8 @@ def build_sweep_pairs(pool, master_seed, n_pairs):
     for _ in range(per * 2):
         # the Hebrew calculator looks ahead at next year's slot of the global cache shared by both month numberings
         y = rng.randrange(lo + 1, hi - 1)
+        if rng.random() < 0.4:
+            y = min(max(1024 * rng.randrange(1, 9) + rng.choice([-1, 0, 1, -2]), lo + 1), hi - 2)
         ks = [k for k in (-3, -2, -1, 1, 2, 3) if lo <= y + 1 + 1024 * k <= hi]
         if not ks:
             continue
@@ -655,6 +730,10 @@ def build_sweep_pairs(pool, master_seed, n_pairs):
         a = rng.choice([["date", ca, y, m, rng.randrange(1, 29)], ["ylen", ca, y], ["mlen", ca, y, rng.choice([2, 3, 8, 9])]])
         b = rng.choice([["date", cb, z, m, rng.randrange(1, 29)], ["ylen", cb, z]])
         warm = rng.choice([[["ylen", ca, y + 1]], [["ylen", ca, y + 1]], [], [["ylen", cb, z]]])
+        if rng.random() < 0.3:
+            d = rng.choice([1023, -1023, 1025, -1025, 1024, -1024])
+            if lo < y + d < hi:
+                warm = [["ylen", cb, y + d]]
         add("hebrew look-ahead", warm, a, b, ["cal"])
     zids = list(pool["zone"])
     for _ in range(per * 3):
@@ -811,12 +890,18 @@ def cold_table(ops, workers):
     return table
 
 
-def _zone_transitions(_):
+def _all_zone_ids(_):
+    import pyoda_time as P
+
+    return sorted(P.DateTimeZoneProviders.tzdb.ids)
+
+
+def _zone_transitions(ids):
     import pyoda_time as P
 
     out = {}
     lo, hi = -5364662400 * 10**9, 4102444800 * 10**9  # 1800 .. 2100
-    for zid in TZ_IDS:
+    for zid in ids or TZ_IDS:
         z = P.DateTimeZoneProviders.tzdb[zid]
         inst = _inst(lo)
         ts = []
@@ -847,6 +932,19 @@ def prepare(tier, master_seed, workers):
     _ALL_CULTURES = r if isinstance(r, list) else []
     tr = bootstrap.run_in_fork(_zone_transitions, None, 300)
     _TRANSITIONS = tr if isinstance(tr, dict) and "harness" not in tr else {}
+    # data-driven: zones that have a 32-day cache period containing two or more transitions (the node chain of such a
+    # period has three links) - found by walking every zone of the database once, in forks
+    global _DOUBLE
+    _DOUBLE = []
+    ids = bootstrap.run_in_fork(_all_zone_ids, None, 120)
+    if isinstance(ids, list):
+        chunks = [ids[i::workers] for i in range(workers)]
+        for part in bootstrap.parallel_map(_zone_transitions, chunks, workers, 600):
+            if isinstance(part, dict) and "harness" not in part:
+                for zid, ts in part.items():
+                    for a, b in zip(ts, ts[1:]):
+                        if (a // NS_DAY) >> 5 == (b // NS_DAY) >> 5:
+                            _DOUBLE.append((zid, a, b))
     scale = 2.0 if tier == "thorough" else 1.0
     _POOL = build_pool(master_seed, scale)
     n_pairs = {"quick": 60, "thorough": 500}.get(tier, 12)
@@ -914,6 +1012,8 @@ def gen_run(seed):
     material = []
     if "cal" in fams:
         cals = rng.sample(list(pool["cal"]), rng.choice([1, 1, 2]))
+        if rng.random() < 0.2:
+            cals = ["Hebrew Civil"]
         if "Hebrew Civil" in cals and rng.random() < 0.7:
             cals.append("Hebrew Scriptural")
         for c in cals:
@@ -1059,6 +1159,7 @@ def execute(spec):
     env.hist = []
     env.idents = []
     env.op_events = {}
+    env.cobj = {}
     _apply_knobs(spec, notes)
     _prewarm(spec)
     rng = random.Random(spec["seed"] ^ 0x5EED)
